@@ -309,7 +309,9 @@ func (s *state) exec(t *rapid.T, i int, o op) {
 			switch {
 			case o.K == "tomb":
 				s.gone[id] = "tomb"
-			case s.gone[id] == "tomb":
+			case s.gone[id] != "":
+				// already removed: keep the first cause (e.g. Drop of a garbage-marked
+				// object is a no-op that returns nil and leaves the marked blob)
 			case o.K == "drop":
 				s.gone[id] = "drop"
 			default:
